@@ -188,6 +188,9 @@ pub fn s_rtp_parse(run: &mut Run, hx: &str, from_ref: bool) -> (String, Fails) {
         Ok(Err(e)) => { if from_ref { f.push(("codec:rtp:parse-of-ref-bytes:rejected".into(), show_err(&e))); } show_err(&e) }
         Ok(Ok(p)) => {
             let m = p.marshal();
+            // canonical wire encoding (padding, if any, written as count bytes) is reproduced byte for byte
+            let canonical = b[0] & 0x20 == 0 || (p.padding_len != 0 && b[b.len() - p.padding_len as usize..].iter().all(|x| *x == p.padding_len));
+            if canonical { if let Ok(mb) = &m { if *mb != b { f.push(("codec:rtp:bytes-not-reproduced".into(), hex(mb))); } else { run.count("rtp_bytes_reproduced"); } } }
             match &m {
                 Err(e) => f.push(("codec:rtp:parsed-not-marshalable".into(), show_err(e))),
                 Ok(mb) => match RtpPacket::parse(mb) {
